@@ -58,12 +58,16 @@ theorem C07_trigger_gap_timeout (c : Cfg) (s : St) (now dl : Nat) (h : s.timer =
     raised c s .timerFire now = some .reorderTimeout := by
   simp [raised, h]
 
-/-- a store rejecting a metric of an in-sequence message -/
+/-- a store rejecting a metric of an in-sequence message: the reason follows the store's answer
+(`invalid` ↦ `invalidPayload`, `unknownMetric` ↦ `unknownMetric`), for node data exactly as for
+device data (D17) -/
 theorem C07_trigger_store_rejects_node_data (c : Cfg) (s : St) (seq ts id : Nat) (ans : Ans) (now : Nat)
     (hinv : HostInv s) (hseq : seq < 256) (hfresh : Fresh s ts) (hb : s.life = .birthed)
     (hin : InSeq c s seq) (hrej : ans ≠ .ok) :
-    raised c s (.rmsg seq ts (.ndata id ans)) now = some .invalidPayload := by
-  exact raised_inseq_some c s seq ts _ now hinv hseq hfresh hb hin _ (fun rs => by simp [apply, hrej])
+    raised c s (.rmsg seq ts (.ndata id ans)) now
+      = some (if ans = .invalid then .invalidPayload else .unknownMetric) := by
+  refine raised_inseq_some c s seq ts _ now hinv hseq hfresh hb hin _ (fun rs => ?_)
+  cases ans <;> simp_all [apply]
 
 theorem C07_trigger_store_rejects_device_birth (c : Cfg) (s : St) (seq ts d id : Nat) (ans : Ans) (now : Nat)
     (hinv : HostInv s) (hseq : seq < 256) (hfresh : Fresh s ts) (hb : s.life = .birthed)
@@ -85,11 +89,14 @@ theorem C07_trigger_store_rejects_device_data (c : Cfg) (s : St) (seq ts d id : 
   refine raised_inseq_some c s seq ts _ now hinv hseq hfresh hb hin _ (fun rs => ?_)
   cases ans <;> simp_all [apply]
 
+/-- the node's store rejecting an NBIRTH: every NBIRTH that is strictly newer is shown to the
+store, whatever the host holds for the node (also a rebirth that keeps the bdSeq while the node
+is held birthed, D16), so every rejection raises the reason -/
 theorem C07_trigger_store_rejects_node_birth (c : Cfg) (s : St) (ts bd id : Nat) (ans : Ans) (now : Nat)
-    (hnew : s.birthTs < ts) (hnot : ¬ (s.life = .birthed ∧ s.bdseq = bd)) (hrej : ans ≠ .ok) :
+    (hnew : s.birthTs < ts) (hrej : ans ≠ .ok) :
     raised c s (.nbirth ts bd id ans) now = some .invalidPayload := by
   simp only [raised]
-  rw [if_neg (by omega), if_pos ⟨hnot, hrej⟩]
+  rw [if_neg (by omega), if_pos hrej]
 
 /-- data (or a death) from a device it holds no birth for -/
 theorem C07_trigger_unknown_device (c : Cfg) (s : St) (seq ts d id : Nat) (ans : Ans) (now : Nat)
@@ -147,5 +154,21 @@ theorem C07_no_reason_when_trustworthy (c : Cfg) (s : St) (now : Nat) (hinv : Ho
 
 /-! ### non-vacuity -/
 example : raised (exampleCfg (some 100) 0) init (.rmsg 1 5 (.ndata 1 .ok)) 5 = some .recordedStateStale := by decide
+
+/-- node data the store does not know a metric of raises `unknownMetric`, malformed node data
+`invalidPayload` (D17) -/
+example :
+    let c := exampleCfg (some 100) 0
+    let s0 := (step c init (.nbirth 10 3 1 .ok) 10 10).1
+    raised c s0 (.rmsg 1 11 (.ndata 2 .unknownMetric)) 11 = some .unknownMetric ∧
+    raised c s0 (.rmsg 1 11 (.ndata 2 .invalid)) 11 = some .invalidPayload := by decide
+
+/-- a rebirth NBIRTH with the same bdSeq, rejected by the store of a node held birthed, raises
+`invalidPayload` and is answered with a rebirth request (D16) -/
+example :
+    let c : Cfg := { exampleCfg (some 100) 0 with invalidPayload := true }
+    let s0 := (step c init (.nbirth 10 3 1 .ok) 10 10).1
+    raised c s0 (.nbirth 20 3 2 .invalid) 20 = some .invalidPayload ∧
+    (step c s0 (.nbirth 20 3 2 .invalid) 20 20).2 = [.nodeBirth 2 false, .nodeStale, .ncmd] := by decide
 
 end Srad.Host
